@@ -1324,7 +1324,7 @@ pub fn rewrite_body(slot: &SlotSpec, found: &Found, retarget: &[(String, String)
                     if f.text.starts_with('\u{2}') && f.start == cs && f.end == ce {
                         continue;
                     }
-                    if f.start == f.end && (f.start == cs || f.start == ce) {
+                    if e.text.starts_with("let ") && f.start == f.end && (f.start == cs || f.start == ce) {
                         // an insertion at the boundary belongs to the surrounding expression
                         continue;
                     }
